@@ -60,6 +60,7 @@ structure Opt where
   boolDefault : Bool := false
   called : Bool := false
   usedAlias : Str := []
+  lowerKeys : Bool := false       -- `MapKeysToLower`: copied from the root when the option is matched on the command line
   value : Val
 deriving Repr, Inhabited, DecidableEq
 
